@@ -203,7 +203,7 @@ func genC02(seed uint64, run int, tier string) Scenario {
 		risky := ver == "1.1" && r.IntN(20) == 0
 		payload, want, hasErr := genPayload(r, risky)
 		rep := peer.NCReply{Mode: "now", Payload: payload}
-		ref := C02Reply{Want: want, WantFail: hasErr, Risky: ver == "1.1" && strings.Contains(payload, "##")}
+		ref := C02Reply{Want: want, WantFail: hasErr}
 		if ver == "1.0" && r.IntN(3) == 0 {
 			// many servers end every message with a line feed after the delimiter (it travels in
 			// front of the next message)
@@ -223,6 +223,7 @@ func genC02(seed uint64, run int, tier string) Scenario {
 	}
 	sc.Ops = append(sc.Ops, NCOp{Kind: "close"})
 	sc.fitTimeouts()
+	sc.CutEnum = !faulty && (run*7+run/16)%8 == 3
 	if sc.Net.JoinMsgs && n >= 2 && r.IntN(2) == 0 {
 		// one reply comes just after its call has given up, back to back with the next reply: a
 		// read may then carry the end of one message and the beginning of the next
@@ -230,6 +231,7 @@ func genC02(seed uint64, run int, tier string) Scenario {
 		sc.Server.Replies[i].Mode = "late"
 		sc.Server.Replies[i].DelayUS = sc.TimeoutOpsUS + sc.ReadDelayUS*int64(between(r, 0, 4))
 		sc.Refs[i].Late = true
+		sc.CutEnum = false // every sub-run would spin the reply poller through a whole timeout
 	}
 	// the raw-bytes leg: frames handed straight to the public decoder
 	nd := 30
@@ -364,6 +366,30 @@ func coveredBy(res, src string) (bool, int) {
 	return true, -1
 }
 
+// expandNCCuts is the cut enumeration of a NETCONF base scenario (see cutLists).
+func expandNCCuts(quickMax int) func(base Scenario, res *Result, tier string) []Scenario {
+	return func(base Scenario, res *Result, tier string) []Scenario {
+		b := base.(*NCSession)
+		if !b.CutEnum || len(res.Violations) > 0 || res.HarnessError != "" || res.Inconclusive != "" || b.BaseEmitted <= 0 {
+			return nil
+		}
+		r := rand.New(rand.NewPCG(b.SchedSeed, 0xc07))
+		var out []Scenario
+		for _, cl := range cutLists(b.CutFrom, b.BaseEmitted, tier, r, quickMax) {
+			v := *b
+			v.CutEnum = false
+			v.Frames = nil
+			v.Net.SegMode, v.Net.CutAt, v.Net.LatMode = "cuts", cl, "zero"
+			v.ReadSize = 65535 // a small read size would cut everywhere and hide the chosen cut
+			v.Class = b.Class + "/cut"
+			v.SchedSeed = r.Uint64()
+			out = append(out, &v)
+		}
+
+		return out
+	}
+}
+
 func runC02(env *Env, s Scenario) {
 	sc := s.(*NCSession)
 	nr, done := StartNC(env, sc)
@@ -372,6 +398,12 @@ func runC02(env *Env, s Scenario) {
 	}
 	out := env.K.Run(done, sc.Deadline(), sc.readDelay()*20+time.Millisecond)
 	env.Finish(out)
+	if sc.CutEnum {
+		sc.BaseEmitted, sc.CutFrom = nr.Tr.Emitted(), nr.OpenRec.Delivered
+	}
+	if len(sc.Net.CutAt) > 0 {
+		env.Fault("cut-enum", 1)
+	}
 	env.Context = nr.Summary
 	env.Res.Shape = fmt.Sprintf("%s n=%d echo=%v seg=%s lat=%s rs=%d", sc.Class, len(sc.Refs), sc.Server.Echo, sc.Net.SegMode, sc.Net.LatMode, sc.ReadSize)
 	env.Res.Nontrivial = true
@@ -387,6 +419,7 @@ func runC02(env *Env, s Scenario) {
 		return
 	}
 	_, _, _, _, reqs, sent, _ := nr.Srv.Snapshot()
+	desynced := false
 	for i := range nr.Recs {
 		rec := &nr.Recs[i]
 		if rec.ReqIndex < 0 || rec.ReqIndex >= len(sc.Refs) || rec.Panicked {
@@ -403,7 +436,16 @@ func runC02(env *Env, s Scenario) {
 			srcBytes = sent[rec.ReqIndex]
 		}
 		clausePfx := ""
-		if ref.Risky {
+		// the listed finding needs "##" at the start of a line of the raw stream; "##" in the
+		// middle of a line is ordinary data and gets no special treatment
+		rep := sc.Server.Replies[rec.ReqIndex]
+		risky := sc.WantVersion == "1.1" && rep.Malform == "" && doubleHashAtRawLineStart(strings.ReplaceAll(rep.Payload, "{MID}", mid), rep.Chunks)
+		if risky && (rec.Err != nil || rec.Failed != ref.WantFail || rec.Result != want) {
+			// the remainder of a reply that was cut short stays in the read loop's buffer and
+			// desynchronises the replies that follow in this session
+			desynced = true
+		}
+		if risky || desynced {
 			// known finding: the read loop may cut such a reply short; the decoder then reports
 			// the truncation explicitly. A wrong result that is NOT marked failed is a different
 			// (unlisted) violation.
@@ -513,6 +555,7 @@ func init() {
 		Gen:    genC02,
 		New:    func() Scenario { return &NCSession{} },
 		Run:    runC02,
+		Expand: expandNCCuts(120),
 		Shrink: shrinkNC,
 	})
 }
